@@ -700,6 +700,11 @@ def run(chk: Check):
     chk.extra["python_mirror_disagreements"] = mirror_disagree
     cleanup_scratch()
 
+    # abstract kernel model G (coq/model/Kernel.v; theorems props/C01G.v: G computes spec, its output is
+    # well-formed and phantom-free): exact raw-array correspondence with the real evaluate kernels
+    from props._c01_kernel import run_kernel_correspondence
+    run_kernel_correspondence(chk)
+
 
 def replay(chk: Check, payload):
     os.environ.pop(GUARD, None)
